@@ -55,6 +55,11 @@ EXT_C8 = {'ARM': {0x8E + i: k for i, k in enumerate(_c8_arm)}, 'Mac': {0x8E + i:
 class Invalid(Exception):
     pass
 
+
+class Ambiguous(Exception):
+    """the documents do not settle this input (or disagree with the repo's
+    golden data): no verdict is drawn from it"""
+
 def single_token(fam, b):
     """Return expansion string for byte b outside a string, or raise Invalid; None => special."""
     col = COL[fam]
@@ -115,7 +120,11 @@ def list_line(fam, number, data, listo, state):
             if data[i] not in m: raise Invalid('bad ext %02X %02X' % (b, data[i]))
             body += m[data[i]].encode(); i += 1; continue
         if b == 0x7F and fam not in ('ARM', 'Mac'):
-            body.append(b); continue  # ambiguous; prototype follows golden token map
+            if state.get('strict'):
+                raise Ambiguous('0x7F outside ARM/Mac')
+            body.append(b); continue  # ambiguous; follows the golden token map
+        if b == 0xFB and fam == 'Mac' and state.get('strict'):
+            raise Ambiguous('0xFB for Mac')
         s = single_token(fam, b)
         body += s.encode('latin1')
         if b == 0xE3 and listo & 2: opens += 1
@@ -128,10 +137,11 @@ def list_line(fam, number, data, listo, state):
     state['indent'] += 2 * opens
     return bytes(out)
 
-def list_program(dialect, data, listo):
-    """Strict: returns listing bytes or raises Invalid."""
+def list_program(dialect, data, listo, strict=False):
+    """Returns listing bytes or raises Invalid.  With strict=True inputs the
+    documents leave open raise Ambiguous instead of being listed."""
     fam = FAMILY[dialect]
-    out = bytearray(); state = {'indent': 0}
+    out = bytearray(); state = {'indent': 0, 'strict': strict}
     if len(data) == 0: return b''
     p = 0
     if dialect in BE:
@@ -142,6 +152,8 @@ def list_program(dialect, data, listo):
             if p >= len(data): raise Invalid('premature eof')
             hi = data[p]; p += 1
             if hi == 0xFF:
+                if strict and p < len(data):
+                    raise Ambiguous('bytes after the end marker')
                 return bytes(out)   # nothing should be read after the marker
             if p + 2 > len(data): raise Invalid('premature eof')
             lo = data[p]; ln = data[p+1]; p += 2
@@ -154,6 +166,8 @@ def list_program(dialect, data, listo):
             ln = data[p]; p += 1
             if ln == 0:
                 if data[p:p+2] != b'\xff\xff': raise Invalid('bad eof marker')
+                if strict and p + 2 < len(data):
+                    raise Ambiguous('bytes after the end marker')
                 return bytes(out)
             if ln < 3: raise Invalid('short line')
             if p + 2 > len(data): raise Invalid('premature eof')
@@ -161,7 +175,10 @@ def list_program(dialect, data, listo):
             body = data[p:p+ln-3]
             if len(body) < ln - 3: raise Invalid('premature eof in line')
             p += ln - 3
-            if ln - 3 == 0: continue   # AMBIGUOUS: length-3 line (no CR) accepted silently by tool
+            if ln - 3 == 0:
+                if strict:
+                    raise Ambiguous('little-endian line of length 3')
+                continue   # AMBIGUOUS: length-3 line (no CR)
             if body[-1] != 0x0D: raise Invalid('missing CR')
             out += list_line(fam, hi * 256 + lo, body[:-1], listo, state)
 
